@@ -339,4 +339,30 @@ example :
     outsT .identity (fun c => c) initT [.newTable [1, 2], .call 0, .mutate 0 [7, 2], .call 0]
     = [none, some [1, 2], none, some [1, 2]] := by decide
 
+/-! ### (6) arrays returned by the operator helpers are new objects -/
+
+/-- every public function of `oqupy.operators` (and `util.create_delta`) builds the array it
+    returns anew: no memoising decorator, no module-level object, not its own argument -/
+theorem return_table : ∀ s ∈ returnSites, returnOK s = true := by decide
+
+/-- **returns_fresh.**  For every listed function and every history of calls and of user writes
+    into arrays earlier calls returned: a call returns the pristine value (whatever was written
+    into earlier results), in a buffer that no earlier call returned. -/
+theorem returns_fresh (s : ReturnSite) (hs : s ∈ returnSites) (pristine : Val) (hist : List ROp) :
+    (stepR s.kind pristine (runR s.kind pristine initR hist) .call).2 = some pristine ∧
+    (runR s.kind pristine initR (hist ++ [.call])).results.Nodup := by
+  have hk : s.kind = .fresh := by
+    have := return_table s hs
+    simpa [returnOK] using this
+  rw [hk]
+  refine ⟨rfl, ?_⟩
+  exact (rinv_run pristine (hist ++ [.call]) initR rinv_init).2
+
+/-- non-vacuity / the scenario `p = identity(2); p[1,1] = 0; identity(2)`: fresh arrays are
+    unaffected, a memoised one hands the edited array out again -/
+example :
+    outsR .fresh 1 initR [.call, .write 0 9, .call] = [some 1, none, some 1] ∧
+    outsR .cached 1 initR [.call, .write 0 9, .call] = [some 1, none, some 9] ∧
+    (runR .cached 1 initR [.call, .call]).results = [0, 0] := by decide
+
 end OQuPyVerif.Props.C20
